@@ -1082,6 +1082,7 @@ class SKEData(Packet):
 
     def __copy__(self):
         skd = self.__class__()
+        skd.header = copy.copy(self.header)
         skd.ct = self.ct[:]
         return skd
 
@@ -1555,6 +1556,7 @@ class IntegrityProtectedSKEDataV1(IntegrityProtectedSKEData):
 
     def __copy__(self):
         skd = self.__class__()
+        skd.header = copy.copy(self.header)
         skd.ct = self.ct[:]
         return skd
 
